@@ -85,7 +85,8 @@ def plant(n, kind, rnd, t):
 
 def _plant(n, kind, rnd, t):
     if kind == "unknown-child":
-        j = Node("zzUnknown")
+        # not a known element - also look-alikes of known names (re-cased, padded, qualified): names are compared exactly
+        j = Node(rnd.choice(["zzUnknown", "zzUnknown", "Title", "title ", "{u}title", "eml:dataset", "PARA", "creators"]))
         j.add_child(Node("title", content="inner"))
         n.add_child(j, index=rnd.randint(0, len(n.children)))
     elif kind == "unknown-leaf":
